@@ -39,6 +39,7 @@ let dispatch kind fields =
   | "ISO" -> K_iso.run_iso fields
   | "DECRYPT" -> K_tools.run_decrypt fields
   | "TARGET" -> K_tools.run_target fields
+  | "SFO" -> K_sfo.run_sfo fields
   | _ -> failwith ("unknown kind " ^ kind)
 
 let () =
